@@ -93,8 +93,10 @@ Definition sign_bytes (it : item) : sbytes :=
      sb_fees := if cfees then eff_fees (it_fees it) else (0, 0, 0);
      sb_relayer := if crel then it_relayer it else 0 |}.
 
-(** A validator's registered external accounts. *)
-Record acct := { ac_chain : Z; ac_addr : Z; ac_key : Z }.
+(** A validator's registered external accounts: chain, the Address STRING as written at registration
+    (GetSigningKey and the collision check compare it as a string), the Pubkey blob, and the 20-byte
+    address the string parses to (what skyway's GetEthAddressByValidator returns; unused by the queue). *)
+Record acct := { ac_chain : Z; ac_addr : Z; ac_key : Z; ac_eth : Z }.
 
 Record state := {
   st_items : list item;
